@@ -154,6 +154,8 @@ class Engine:
                 if ev == "reset":
                     s = e.get("s", {})
                     self.cov["scenario:%s/%s" % (s.get("framing", e.get("kind", "-")), s.get("faultKind", "-"))] += 1
+                elif ev == "head":
+                    self.cov["head:%s/%s" % (e.get("res"), e.get("kind", ""))] += 1
                 elif ev == "ret":
                     self.cov["ret:%s/%s" % (e.get("op"), e.get("res"))] += 1
                 else:
@@ -191,7 +193,14 @@ class Engine:
             self.viol.append({"line": 0, "id": sc.get("id", "?"), "property": self.pid, "guard": "G05_terminates(hang)", "detail": "", "trace": "", "scenario": sc})
             return
         self.scan_traces(outdir)
+        before = len(self.viol)
         self.validate_all(fam["trace"], outdir)
+        if fam.get("attribute_all"):
+            # scenarios built for this property only: any failed guard on them is this property's failure
+            for v in self.viol[before:]:
+                if v["property"] != self.pid:
+                    v["guard"] = "%s(%s)" % (v["guard"], v["property"])
+                    v["property"] = self.pid
 
     # ------------------------------------------------------------------ known findings
     def is_known(self, v, sc):
